@@ -426,7 +426,7 @@ func (x *runner) pagesOps(v int, reps int) {
 			}
 		}
 		if op == "pages" && api == "scanner" {
-			op = "pagesn" // the Scanner over pages: specification compared in the driver, theorem for Iter.Scan only so far
+			op = "pagesn" // the Scanner over pages (C04_pages_scanner)
 		}
 		toks := []string{op, api, fmt.Sprint(v), fmt.Sprint(pf), fmt.Sprint(len(rs))}
 		for _, r := range rs {
